@@ -4,20 +4,11 @@ CONSTANTS
   Lens <- MC_LensS
   Ds <- MC_DsS
   MaxEx = 3
-  MaxFaults = 1
+  MaxFaults = 0
   MaxStepFaults = 2
   Vs <- MC_VsFixed
   WithRelease = TRUE
   WithTrunc = FALSE
   MaxSess = 2
-INVARIANT ExactlyOnce
-INVARIANT Intact
-INVARIANT OnlyCommErr
-INVARIANT FrameFits
-INVARIANT OneFaultOk
-INVARIANT TargetOk
-INVARIANT PniInSync
-INVARIANT FirstPni
-INVARIANT SessAttr
 VIEW View
 CHECK_DEADLOCK FALSE
